@@ -41,6 +41,10 @@ func verifFlags(dir string) {
 func raftLogOf(e *verifgen.Entry) *raft.Log {
 	m := e.Message()
 	m.Id = robust.Id{} // the id is assigned from the raft index
+	if m.Session.Id != 0 {
+		// session ids are message ids: raft index + robust.MessageOffset
+		m.Session.Id = robust.IdFromRaftIndex(m.Session.Id)
+	}
 	b, err := proto.Marshal(m.ProtoMessage())
 	if err != nil {
 		panic(err)
